@@ -101,7 +101,7 @@ func (w *World) setOverride(r *rand.Rand, node, ns, eds string) {
 	key := ovAnnKey(ns, eds)
 	if r.Intn(6) == 0 {
 		// written for a container the template does not have (init container, renamed, typo): no effect on the pod
-		key = fmt.Sprintf(v1.ExtendedDaemonSetRessourceNodeAnnotationKey, ns, eds, "init-volume")
+		key = fmt.Sprintf(v1.ExtendedDaemonSetRessourceNodeAnnotationKey, ns, eds, []string{"init-volume", "sidecar"}[r.Intn(2)])
 	}
 	w.MutateNode(node, "override annotation "+key+"="+val, func(n *corev1.Node) {
 		if n.Annotations == nil {
